@@ -358,3 +358,394 @@ Proof.
   intros b w i Hwf Hi. rewrite lb_string_under. unfold lb_index, lb_under. cbn.
   destruct (lb_buf b); symmetry; apply nth_error_firstn_lt; exact Hi.
 Qed.
+
+(* ------------------------------------------------------------------ *)
+(* the two inner loops *)
+
+Lemma nth_error_app_plus : forall (X Y : str) j,
+  nth_error (X ++ Y) (length X + j) = nth_error Y j.
+Proof.
+  induction X as [|x X IH]; intros Y j; [reflexivity|]. cbn. apply IH.
+Qed.
+
+Lemma backtrack_ok : forall b X y0 Y' dotdot,
+  wf b -> lb_string b = X ++ y0 :: Y' -> ~ In SLASH Y' ->
+  (dotdot <= length X)%nat -> (y0 = SLASH \/ dotdot = length X) ->
+  forall j fuel, (j <= length Y')%nat -> (j < fuel)%nat ->
+  backtrack fuel (lb_set_w b (length X + j)) dotdot = Ok (lb_set_w b (length X)).
+Proof.
+  intros b X y0 Y' dotdot Hwf Hs HY Hd Hy0.
+  assert (Hw : lb_w b = (length X + S (length Y'))%nat).
+  { rewrite <- (lb_string_length b Hwf), Hs, app_length. reflexivity. }
+  induction j as [|j IH]; intros fuel Hj Hf; (destruct fuel as [|f]; [lia|]).
+  - rewrite Nat.add_0_r. cbn [backtrack]. cbn [lb_set_w lb_w].
+    destruct (dotdot <? length X)%nat eqn:E; [|reflexivity].
+    apply Nat.ltb_lt in E.
+    change (mkLB (lb_s b) (lb_buf b) (length X)) with (lb_set_w b (length X)).
+    rewrite (lb_index_string b) by (auto; lia).
+    rewrite Hs. rewrite <- (Nat.add_0_r (length X)) at 1. rewrite nth_error_app_plus.
+    cbn [nth_error]. destruct Hy0 as [->|Hy0]; [|lia]. rewrite Z.eqb_refl. reflexivity.
+  - cbn [backtrack]. cbn [lb_set_w lb_w].
+    assert (E : (dotdot <? length X + S j)%nat = true) by (apply Nat.ltb_lt; lia).
+    rewrite E.
+    change (mkLB (lb_s b) (lb_buf b) (length X + S j)) with (lb_set_w b (length X + S j)).
+    rewrite (lb_index_string b) by (auto; lia).
+    rewrite Hs, nth_error_app_plus. cbn [nth_error].
+    destruct (nth_error Y' j) as [c|] eqn:En.
+    + assert (Hc : c <> SLASH).
+      { intro; subst c. apply HY. eapply nth_error_In; eassumption. }
+      apply Z.eqb_neq in Hc. rewrite Hc.
+      unfold lb_set_w at 1. cbn [lb_s lb_buf lb_w lb_set_w].
+      rewrite Nat.add_succ_r. cbn [pred].
+      change (mkLB (lb_s b) (lb_buf b) (length X + j)) with (lb_set_w b (length X + j)).
+      apply IH; lia.
+    + apply nth_error_None in En. lia.
+Qed.
+
+Lemma copy_elem_ok : forall rest b, wf b ->
+  (lb_w b + length rest <= length (lb_s b))%nat ->
+  exists b' e rest', copy_elem b rest = Some (b', rest') /\ rest = e ++ rest' /\
+    ~ In SLASH e /\ at_end_or_slash rest' = true /\ wf b' /\ lb_s b' = lb_s b /\
+    lb_string b' = lb_string b ++ e /\ lb_w b' = (lb_w b + length e)%nat.
+Proof.
+  induction rest as [|c t IH]; intros b Hwf Hcap.
+  - exists b, [], []. cbn. rewrite app_nil_r, Nat.add_0_r. repeat split; auto; apply Hwf.
+  - cbn [copy_elem]. destruct (c =? SLASH) eqn:Ec.
+    + exists b, [], (c :: t). cbn [at_end_or_slash app length]. rewrite app_nil_r, Nat.add_0_r.
+      repeat split; auto; apply Hwf.
+    + cbn [length] in Hcap.
+      destruct (lb_append_ok b c Hwf) as (b1 & E1 & Hwf1 & Hs1 & Hstr1 & Hw1); [lia|].
+      rewrite E1.
+      destruct (IH b1 Hwf1) as (b' & e & rest' & E & Hr & He & Hae & Hwf' & Hs' & Hstr' & Hw').
+      { rewrite Hs1, Hw1. lia. }
+      exists b', (c :: e), rest'. rewrite E. cbn [app length]. repeat split; auto.
+      * congruence.
+      * apply Z.eqb_neq in Ec. intros [H|H]; [congruence | contradiction].
+      * apply Hwf'.
+      * apply Hwf'.
+      * congruence.
+      * rewrite Hstr', Hstr1, <- app_assoc. reflexivity.
+      * lia.
+Qed.
+
+(* ------------------------------------------------------------------ *)
+(* render *)
+
+Lemma render_length_ge : forall rooted st, (base rooted <= length (render rooted st))%nat.
+Proof.
+  induction st as [|c st IH]; cbn [render].
+  - destruct rooted; cbn; lia.
+  - destruct (length (render rooted st) =? base rooted)%nat;
+      rewrite app_length; cbn [length]; lia.
+Qed.
+
+Lemma render_cons_length : forall rooted c st, c <> [] ->
+  (length (render rooted st) < length (render rooted (c :: st)))%nat.
+Proof.
+  intros rooted c st Hc. cbn [render].
+  destruct c as [|x c]; [contradiction|].
+  destruct (length (render rooted st) =? base rooted)%nat;
+    rewrite app_length; cbn [length]; lia.
+Qed.
+
+Lemma render_app_length : forall rooted st1 st2,
+  (length (render rooted st2) <= length (render rooted (st1 ++ st2)))%nat.
+Proof.
+  induction st1 as [|c st1 IH]; intro st2; cbn [app]; [lia|].
+  specialize (IH st2). cbn [render].
+  destruct (length (render rooted (st1 ++ st2)) =? base rooted)%nat;
+    rewrite app_length; cbn [length]; lia.
+Qed.
+
+Lemma normal_nonnil : forall c, normal c -> c <> [].
+Proof. intros c H. apply H. Qed.
+
+Lemma dotdot_nonnil : DOTDOT <> [].
+Proof. discriminate. Qed.
+
+Lemma render_base_nil : forall rooted st, Forall (fun c => c <> []) st ->
+  length (render rooted st) = base rooted -> st = [].
+Proof.
+  intros rooted st Hf H. destruct st as [|c st]; [reflexivity|].
+  inversion Hf; subst.
+  pose proof (render_cons_length rooted c st ltac:(assumption)).
+  pose proof (render_length_ge rooted st). lia.
+Qed.
+
+Lemma stack_nonnil : forall ns k, Forall normal ns ->
+  Forall (fun c : str => c <> []) (ns ++ repeat DOTDOT k).
+Proof.
+  intros ns k H. apply Forall_app. split.
+  - eapply Forall_impl; [|exact H]. intros c Hc. apply Hc.
+  - apply Forall_forall. intros c Hc. apply repeat_spec in Hc. subst. discriminate.
+Qed.
+
+(* ------------------------------------------------------------------ *)
+(* the component view of the read side *)
+
+Lemma fold_comps_after : forall rooted t st, at_end_or_slash t = true ->
+  fold_left (step rooted) (split t) st = fold_left (step rooted) (comps_after t) st.
+Proof.
+  intros rooted t st H. destruct t as [|c t]; [reflexivity|].
+  cbn [at_end_or_slash] in H. apply Z.eqb_eq in H. subst c.
+  rewrite split_cons_slash. reflexivity.
+Qed.
+
+Lemma step_normal : forall rooted st e, normal e -> step rooted st e = e :: st.
+Proof.
+  intros rooted st e (H1 & H2 & H3 & _). unfold step.
+  destruct e as [|x e]; [contradiction|].
+  apply str_eqb_false in H2. apply str_eqb_false in H3. rewrite H2, H3. reflexivity.
+Qed.
+
+Lemma can_pop_stack : forall ns k, Forall normal ns ->
+  can_pop (ns ++ repeat DOTDOT k) = match ns with [] => false | _ => true end.
+Proof.
+  intros ns k H. destruct ns as [|n ns].
+  - destruct k; reflexivity.
+  - inversion H as [|? ? (_ & _ & Hn & _) _]; subst. cbn.
+    apply str_eqb_false in Hn. rewrite Hn. reflexivity.
+Qed.
+
+(* ------------------------------------------------------------------ *)
+(* the main loop *)
+
+Definition Inv (path : str) (rooted : bool) (out : lazybuf) (dotdot : nat)
+           (ns : list str) (k : nat) (rest : str) : Prop :=
+  wf out /\ lb_s out = path /\
+  lb_string out = render rooted (ns ++ repeat DOTDOT k) /\
+  dotdot = length (render rooted (repeat DOTDOT k)) /\
+  Forall normal ns /\ (rooted = true -> k = 0%nat) /\
+  (lb_w out + length rest <= length path)%nat /\
+  ((base rooted < lb_w out)%nat -> at_end_or_slash rest = false ->
+   (lb_w out + 1 + length rest <= length path)%nat).
+
+Lemma is_dot_elem_spec : forall c t, is_dot_elem (c :: t) = true ->
+  c = DOT /\ at_end_or_slash t = true.
+Proof.
+  intros c t H. cbn in H. apply andb_true_iff in H. destruct H as [H1 H2].
+  apply Z.eqb_eq in H1. auto.
+Qed.
+
+Lemma is_dotdot_elem_spec : forall c t, is_dotdot_elem (c :: t) = true ->
+  exists t2, c = DOT /\ t = DOT :: t2 /\ at_end_or_slash t2 = true.
+Proof.
+  intros c t H. destruct t as [|c1 t2]; [discriminate|]. cbn in H.
+  apply andb_true_iff in H. destruct H as [H H3].
+  apply andb_true_iff in H. destruct H as [H1 H2].
+  apply Z.eqb_eq in H1. apply Z.eqb_eq in H2. subst. exists t2. auto.
+Qed.
+
+Lemma loop_ok : forall fuel path rooted out dotdot ns k rest,
+  (length rest < fuel)%nat ->
+  Inv path rooted out dotdot ns k rest ->
+  exists out', clean_loop fuel rooted out dotdot rest = Ok out' /\ wf out' /\
+    lb_string out' =
+      render rooted (fold_left (step rooted) (split rest) (ns ++ repeat DOTDOT k)).
+Proof.
+  induction fuel as [|f IH]; intros path rooted out dotdot ns k rest Hfuel HI; [lia|].
+  destruct HI as (Hwf & Hs & Hstr & Hdd & Hns & Hk & Hcap & Hcap2).
+  pose proof (lb_string_length out Hwf) as Hlen.
+  destruct rest as [|c t].
+  - exists out. cbn. auto.
+  - cbn [clean_loop]. cbn [length] in Hfuel, Hcap, Hcap2.
+    destruct (c =? SLASH) eqn:Ec.
+    { (* empty element *)
+      apply Z.eqb_eq in Ec. subst c. rewrite split_cons_slash. cbn [fold_left step].
+      apply (IH path); [lia|]. unfold Inv. repeat split; auto; try apply Hwf; try lia. }
+    destruct (is_dot_elem (c :: t)) eqn:Edot.
+    { (* . *)
+      apply is_dot_elem_spec in Edot. destruct Edot as [-> Hae].
+      change (DOT :: t) with ([DOT] ++ t).
+      rewrite split_elem by (auto; intros [H|[]]; discriminate).
+      cbn [fold_left]. replace (step rooted (ns ++ repeat DOTDOT k) [DOT]) with (ns ++ repeat DOTDOT k) by reflexivity.
+      rewrite <- fold_comps_after by exact Hae.
+      apply (IH path); [lia|]. unfold Inv. repeat split; auto; try apply Hwf; try lia;
+        try (intros; congruence). }
+    destruct (is_dotdot_elem (c :: t)) eqn:Edd.
+    { (* .. *)
+      apply is_dotdot_elem_spec in Edd. destruct Edd as (t2 & -> & -> & Hae).
+      cbn [tl]. cbn [length] in Hfuel, Hcap, Hcap2.
+      change (DOT :: DOT :: t2) with (DOTDOT ++ t2).
+      rewrite split_elem by (auto; intros [H|[H|[]]]; discriminate).
+      cbn [fold_left]. rewrite <- fold_comps_after by exact Hae.
+      assert (Hstep : step rooted (ns ++ repeat DOTDOT k) DOTDOT =
+                      if can_pop (ns ++ repeat DOTDOT k) then tl (ns ++ repeat DOTDOT k)
+                      else if rooted then ns ++ repeat DOTDOT k
+                           else DOTDOT :: ns ++ repeat DOTDOT k) by reflexivity.
+      rewrite Hstep, (can_pop_stack ns k Hns). clear Hstep.
+      destruct ns as [|n0 ns'].
+      - (* cannot backtrack *)
+        cbn [app] in *.
+        assert (Ew : (dotdot <? lb_w out)%nat = false).
+        { apply Nat.ltb_ge. rewrite <- Hlen, Hstr, Hdd. lia. }
+        rewrite Ew. destruct rooted; cbn [negb].
+        + apply (IH path true out dotdot [] k t2); [lia|]. unfold Inv. repeat split; auto; try apply Hwf; try lia;
+            try (intros; congruence).
+        + (* append "/.." or ".." *)
+          assert (H1 : exists o1, (if (0 <? lb_w out)%nat then lb_append out SLASH else Some out) = Some o1 /\
+                       wf o1 /\ lb_s o1 = path /\
+                       lb_string o1 = (if (length (render false (repeat DOTDOT k)) =? 0)%nat
+                                       then render false (repeat DOTDOT k)
+                                       else render false (repeat DOTDOT k) ++ [SLASH]) /\
+                       (lb_w o1 + 2 + length t2 <= length path)%nat).
+          { rewrite <- Hstr, Hlen. destruct (lb_w out) as [|w'] eqn:Ew0.
+            - cbn. exists out. repeat split; auto; try apply Hwf. lia.
+            - assert (E0 : (0 <? S w')%nat = true) by (apply Nat.ltb_lt; lia).
+              rewrite E0. cbn [Nat.eqb].
+              assert (Hc2 : (S w' + 1 + S (S (length t2)) <= length path)%nat).
+              { apply Hcap2; [cbn; lia | reflexivity]. }
+              destruct (lb_append_ok out SLASH Hwf) as (o1 & E1 & Hwf1 & Hs1 & Hstr1 & Hw1);
+                [rewrite Hs; lia|].
+              exists o1. rewrite Hw1, Ew0. repeat split; auto; try apply Hwf1; try congruence. lia. }
+          destruct H1 as (o1 & E1 & Hwf1 & Hs1 & Hstr1 & Hc1). rewrite E1.
+          destruct (lb_append_ok o1 DOT Hwf1) as (o2 & E2 & Hwf2 & Hs2 & Hstr2 & Hw2);
+            [rewrite Hs1; lia|].
+          rewrite E2.
+          destruct (lb_append_ok o2 DOT Hwf2) as (o3 & E3 & Hwf3 & Hs3 & Hstr3 & Hw3);
+            [rewrite Hs2, Hs1, Hw2; lia|].
+          rewrite E3.
+          assert (Hstr3' : lb_string o3 = render false (repeat DOTDOT (S k))).
+          { rewrite Hstr3, Hstr2, Hstr1. cbn [repeat render base].
+            destruct (length (render false (repeat DOTDOT k)) =? 0)%nat;
+              rewrite <- !app_assoc; reflexivity. }
+          change (DOTDOT :: repeat DOTDOT k) with ([] ++ repeat DOTDOT (S k)).
+          apply (IH path); [lia|]. unfold Inv. repeat split; auto; try apply Hwf3.
+          * congruence.
+          * rewrite <- Hstr3'. symmetry. apply lb_string_length. exact Hwf3.
+          * discriminate.
+          * lia.
+          * intros _ H. congruence.
+      - (* can backtrack *)
+        subst dotdot. cbn [app tl] in *.
+        pose proof (Forall_inv Hns) as Hn0. pose proof (Forall_inv_tail Hns) as Hns'.
+        set (st' := ns' ++ repeat DOTDOT k) in *.
+        set (r := render rooted st') in *.
+        assert (Hdr : (length (render rooted (repeat DOTDOT k)) <= length r)%nat)
+          by apply render_app_length.
+        destruct Hn0 as (Hn1 & Hn2 & Hn3 & Hn4).
+        assert (Hparts : exists y0 Y', lb_string out = r ++ y0 :: Y' /\ ~ In SLASH Y' /\
+                   (y0 = SLASH \/ length (render rooted (repeat DOTDOT k)) = length r)).
+        { rewrite Hstr. cbn [render]. fold st'. fold r.
+          destruct (length r =? base rooted)%nat eqn:Eb.
+          - apply Nat.eqb_eq in Eb.
+            destruct n0 as [|y0 Y']; [contradiction|].
+            exists y0, Y'. repeat split; auto.
+            + intro H. apply Hn4. right. exact H.
+            + right. pose proof (render_length_ge rooted (repeat DOTDOT k)). lia.
+          - exists SLASH, n0. repeat split; auto. }
+        destruct Hparts as (y0 & Y' & Hsplit & HY' & Hy0).
+        assert (Hw : lb_w out = (length r + S (length Y'))%nat).
+        { rewrite <- Hlen, Hsplit, app_length. reflexivity. }
+        assert (Ew : (length (render rooted (repeat DOTDOT k)) <? lb_w out)%nat = true)
+          by (apply Nat.ltb_lt; lia).
+        rewrite Ew.
+        replace (pred (lb_w out)) with (length r + length Y')%nat by lia.
+        rewrite (backtrack_ok out r y0 Y' _ Hwf Hsplit HY' Hdr Hy0) by lia.
+        apply (IH path); [lia|]. unfold Inv.
+        assert (Hwf' : wf (lb_set_w out (length r))) by (apply lb_set_w_wf; auto; lia).
+        repeat split; auto; try apply Hwf'.
+        + rewrite lb_set_w_string by lia. rewrite Hsplit.
+          rewrite firstn_app, Nat.sub_diag, firstn_all. cbn [firstn]. apply app_nil_r.
+        + cbn [lb_set_w lb_w]. lia.
+        + intros _ H. congruence. }
+    (* real element *)
+    assert (Hcne : c <> SLASH) by (apply Z.eqb_neq; exact Ec).
+    assert (Htest : ((rooted && negb (lb_w out =? 1)%nat) || (negb rooted && negb (lb_w out =? 0)%nat))
+                    = negb (lb_w out =? base rooted)%nat).
+    { destruct rooted; cbn [base andb orb negb]; [rewrite orb_false_r|]; reflexivity. }
+    rewrite Htest. clear Htest.
+    set (st := ns ++ repeat DOTDOT k) in *.
+    assert (H1 : exists o1, (if negb (lb_w out =? base rooted)%nat then lb_append out SLASH else Some out) = Some o1 /\
+                 wf o1 /\ lb_s o1 = path /\
+                 lb_string o1 = (if (length (render rooted st) =? base rooted)%nat
+                                 then render rooted st else render rooted st ++ [SLASH]) /\
+                 (lb_w o1 + S (length t) <= length path)%nat).
+    { rewrite <- Hstr, Hlen. destruct (lb_w out =? base rooted)%nat eqn:Eb; cbn [negb].
+      - exists out. repeat split; auto; try apply Hwf.
+      - apply Nat.eqb_neq in Eb.
+        assert (Hge : (base rooted <= lb_w out)%nat).
+        { rewrite <- Hlen, Hstr. apply render_length_ge. }
+        assert (Hc2 : (lb_w out + 1 + S (length t) <= length path)%nat).
+        { apply Hcap2; [lia|]. cbn [at_end_or_slash]. exact Ec. }
+        destruct (lb_append_ok out SLASH Hwf) as (o1 & E1 & Hwf1 & Hs1 & Hstr1 & Hw1);
+          [rewrite Hs; lia|].
+        exists o1. repeat split; auto; try apply Hwf1; try congruence. lia. }
+    destruct H1 as (o1 & E1 & Hwf1 & Hs1 & Hstr1 & Hc1). rewrite E1.
+    destruct (copy_elem_ok (c :: t) o1 Hwf1) as (o2 & e & rest' & E2 & Hr & He & Hae & Hwf2 & Hs2 & Hstr2 & Hw2).
+    { rewrite Hs1. cbn [length]. exact Hc1. }
+    rewrite E2.
+    assert (Hen : normal e).
+    { repeat split; auto.
+      - intro; subst e. cbn [app] in Hr. subst rest'.
+        cbn [at_end_or_slash] in Hae. congruence.
+      - intro; subst e. cbn [app] in Hr. inversion Hr; subst.
+        cbn [is_dot_elem] in Edot. rewrite Z.eqb_refl, Hae in Edot. discriminate.
+      - intro; subst e. cbn [app DOTDOT] in Hr. inversion Hr; subst.
+        cbn [is_dotdot_elem] in Edd. rewrite !Z.eqb_refl, Hae in Edd. discriminate. }
+    rewrite Hr. rewrite split_elem by assumption. cbn [fold_left].
+    rewrite (step_normal rooted st e Hen). rewrite <- fold_comps_after by exact Hae.
+    change (e :: st) with ((e :: ns) ++ repeat DOTDOT k).
+    assert (Hlr : length (c :: t) = (length e + length rest')%nat)
+      by (rewrite Hr, app_length; reflexivity).
+    cbn [length] in Hlr.
+    assert (Hel : (0 < length e)%nat).
+    { destruct e; [exfalso; exact (proj1 Hen eq_refl) | cbn; lia]. }
+    apply (IH path); [lia|]. unfold Inv. repeat split; auto; try apply Hwf2.
+    + congruence.
+    + rewrite Hstr2, Hstr1. cbn [app render]. fold st.
+      destruct (length (render rooted st) =? base rooted)%nat;
+        [reflexivity | rewrite <- app_assoc; reflexivity].
+    + lia.
+    + intros _ H. congruence.
+Qed.
+
+(* ------------------------------------------------------------------ *)
+(* path.Clean, as transcribed, is total and equals the specification *)
+
+Theorem clean_lazy_spec : forall p, clean_lazy p = Ok (clean_spec p).
+Proof.
+  intros [|c0 t0]; [reflexivity|].
+  unfold clean_lazy, clean_spec.
+  set (path := c0 :: t0). set (rooted := c0 =? SLASH).
+  assert (Hfinish : forall out rest,
+    Inv path rooted out (base rooted) [] 0 rest -> (length rest < S (length path))%nat ->
+    fold_left (step rooted) (split rest) [] = fold_left (step rooted) (split path) [] ->
+    match clean_loop (S (length path)) rooted out (base rooted) rest with
+    | Ok out => if (lb_w out =? 0)%nat then Ok [DOT] else Ok (lb_string out)
+    | Panic => Panic
+    | OutOfFuel => OutOfFuel
+    end = Ok match render rooted (fold_left (step rooted) (split path) []) with
+             | [] => [DOT]
+             | _ :: _ => render rooted (fold_left (step rooted) (split path) [])
+             end).
+  { intros out rest HI Hlen Hsp.
+    destruct (loop_ok (S (length path)) path rooted out (base rooted) [] 0%nat rest Hlen HI)
+      as (out' & E & Hwf' & Hstr').
+    rewrite E. cbn [app repeat] in Hstr'. rewrite Hsp in Hstr'.
+    rewrite <- (lb_string_length out' Hwf'), Hstr'.
+    destruct (render rooted (fold_left (step rooted) (split path) [])); reflexivity. }
+  destruct rooted eqn:Er.
+  - (* rooted *)
+    assert (Ec : c0 = SLASH) by (apply Z.eqb_eq; exact Er). 
+    assert (Ea : lb_append (mkLB path None 0) SLASH = Some (mkLB path None 1)).
+    { unfold lb_append. cbn [lb_buf lb_s lb_w path nth_error]. fold rooted. rewrite Er. reflexivity. }
+    rewrite Ea. apply (Hfinish (mkLB path None 1) t0).
+    + unfold Inv. cbn [lb_w lb_s base app repeat render length].
+      repeat split; auto; try (cbn; lia); try (intro H; cbn in H; lia).
+      unfold lb_string. cbn. congruence.
+    + cbn. lia.
+    + unfold path. rewrite Ec, split_cons_slash. reflexivity.
+  - apply (Hfinish (mkLB path None 0) path).
+    + unfold Inv. cbn [lb_w lb_s base app repeat render length].
+      repeat split; auto; try (cbn; lia); try (intro H; cbn in H; lia).
+    + lia.
+    + reflexivity.
+Qed.
+
+Corollary clean_spec_eq : forall p, clean p = clean_spec p.
+Proof. intro p. unfold clean. rewrite clean_lazy_spec. reflexivity. Qed.
+
+(* no panic, no fuel exhaustion: [clean] is the value of [clean_lazy] *)
+Corollary clean_lazy_total : forall p, clean_lazy p = Ok (clean p).
+Proof. intro p. rewrite clean_spec_eq. apply clean_lazy_spec. Qed.
